@@ -17,6 +17,8 @@ var table = map[string]func(*core.Ctx){
 	"C09": props.C09,
 	"C08": props.C08,
 	"C14": props.C14,
+	"C11": props.C11,
+	"C04": props.C04,
 }
 
 func main() {
